@@ -29,6 +29,21 @@ def filterOf (f : String) : Option (Option (Bytes → Bool)) :=
       | _, _ => none
     | _ => none
 
+/-- `subject/incl/excl` items -/
+def tableOf (f : String) : Option (List (Bytes × Bool × Bool)) :=
+  (splitList f).mapM fun it =>
+    match it.splitOn "/" with
+    | [s, i, e] =>
+      match bytesOfHex s, boolOf i, boolOf e with
+      | some s, some i, some e => some (s, i, e)
+      | _, _, _ => none
+    | _ => none
+
+def kindOf : String → Option SanKind
+  | "ip" => some .ip
+  | "dns" => some .dns
+  | _ => none
+
 def handle : List String → String
   -- name <sni> <connect host>  →  ok <name> <ip|dns>
   | ["name", sni, host] =>
@@ -78,6 +93,28 @@ def handle : List String → String
       | .mitm => "mitm"
       | .tunnel => "tunnel"
     | _, _, _ => "bad-op"
+  -- pathtab <hasConfig> <nofilter | subject/incl/excl,…> <authority>  →  mitm|tunnel <subject looked up>
+  | ["pathtab", cfg, f, a] =>
+    let flt : Option (Option (Bytes → Bool)) :=
+      if f = "nofilter" then some none else (tableOf f).map fun t => some (tableFilter t)
+    match boolOf cfg, flt, bytesOfHex a with
+    | some c, some flt, some a =>
+      let p := match connectPath c flt a with
+        | .mitm => "mitm"
+        | .tunnel => "tunnel"
+      s!"{p} {hexOfBytes (urlHostname a)}"
+    | _, _, _ => "bad-op"
+  -- origin <xfp> <allowHTTP> <insecure> <authority> <now ns> <ip|dns> <san> <notBefore ns> <notAfter ns> <trusted chain>
+  --   →  <outcome> <name verified>       (x509-shaped verifier on the origin's certificate)
+  | ["origin", xfp, allow, ins, a, now, k, sv, nb, na, tr] =>
+    match bytesOfHex xfp, boolOf allow, boolOf ins, bytesOfHex a, intOf now with
+    | some xfp, some allow, some ins, some a, some now =>
+      match kindOf k, bytesOfHex sv, intOf nb, intOf na, boolOf tr with
+      | some k, some sv, some nb, some na, some tr =>
+        let c : Cert := { cn := sv, kind := k, sanVal := sv, notBefore := nb, notAfter := na, byCA := tr }
+        s!"{outcomeStr (interceptedTo x509ish xfp allow ins c a now)} {hexOfBytes (originVerifyName a)}"
+      | _, _, _, _, _ => "bad-op"
+    | _, _, _, _, _ => "bad-op"
   -- send <url scheme> <xfp> <tls> <allowHTTP> <insecure> <originVerifies>  →  <scheme> <outcome>
   | ["send", us, xfp, tls, allow, ins, ok] =>
     match bytesOfHex us, bytesOfHex xfp, boolOf tls, boolOf allow, boolOf ins, boolOf ok with
